@@ -29,13 +29,14 @@ var (
 	node      *simeth.Node
 	chain     *simeth.Chain
 
-	topic0 = simeth.Word("C07.topic0")
-	topic1 = simeth.Word("C07.topic1")
-	topic2 = simeth.Word("C07.topic2")
-	topicX = simeth.Word("C07.other")
-	addrA  = simeth.Addr("C07.A")
-	addrB  = simeth.Addr("C07.B")
-	bogus  = simeth.Word("C07.bogus")
+	topic0  = simeth.Word("C07.topic0")
+	topic1  = simeth.Word("C07.topic1")
+	topic2  = simeth.Word("C07.topic2")
+	topicX  = simeth.Word("C07.other")
+	addrA   = simeth.Addr("C07.A")
+	addrB   = simeth.Addr("C07.B")
+	bogus   = simeth.Word("C07.bogus")
+	foreign = simeth.Word("C07.fork") // the hash of the same block number on another fork
 )
 
 func hx(b []byte) string { return "0x" + hex.EncodeToString(b) }
@@ -338,6 +339,8 @@ func errClass(err error) string {
 		return "error:empty-result"
 	case strings.Contains(s, "eth backend missing logs"):
 		return "error:missing-header"
+	case strings.Contains(s, "duplicate log index"):
+		return "error:duplicate-log-index"
 	case strings.Contains(s, "missing result"):
 		return "error:missing-result"
 	case strings.Contains(s, "of different blocks in one response"):
